@@ -44,7 +44,7 @@ def recv (d : Dict) : List ReadEv → RBuf → Bytes → RecvOut × RBuf × Byte
         | [] => (.blocked, b, rest, [])
         | ev :: evs' =>
           match readStep b ev rest with
-          | .oom => (.oom, b, rest, evs')
+          | .oom => (.oom, b, rest, ev :: evs')   -- the pipe is not called
           | .err b1 => (.readErr, b1, rest, evs')
           | .got b1 rest1 n => if n = 0 then (.closed, b1, rest1, evs') else recv d evs' b1 rest1
 
